@@ -38,10 +38,10 @@ CHECKS = {
  "C11": ("fault_enumeration", "fault enumeration over generated caches: every strict prefix and every single-field header edit, expected error kind from the independent layout model",
    "Per generated cache the fault space (all prefixes, all listed header edits) is enumerated completely; files are generated with proptest.",
    "Complete per file, not over all files. Buffers 8-byte aligned.", "DESIGN.md §4 C11"),
- "C12": ("exploration", "property-based testing (proptest) with structured corruption operators on valid caches, panic/overflow detection and pointer-range oracle; libFuzzer stage in thorough",
+ "C12": ("exploration", "property-based testing (proptest) with structured corruption operators on valid caches (small, tall, and 4096+-class caches), panic/overflow detection and pointer-range oracle; deep queries in a child process; libFuzzer stage in thorough",
    "Generated-input search over corrupted buffers x the query universe; thorough adds exhaustive (field,value) edits of small files and a coverage-guided libFuzzer campaign with the oracle in-target.",
    "Overflow is observable because the harness builds the crate with overflow-checks. test()/display()/debug_* helpers excluded.", "DESIGN.md §4 C12"),
- "C13": ("exploration", "property-based testing (proptest) / fuzzing of the whole pipeline with hostile numbers, mutants and raw bytes; no-panic/no-error oracle; libFuzzer stage in thorough",
+ "C13": ("exploration", "property-based testing (proptest) / fuzzing of the whole pipeline with hostile numbers, mutants, raw bytes, scale mappings and every mapper constructor; no-panic/no-error oracle; deep inputs answered in a child process so that a stack overflow (an abort, not a panic) is attributed; libFuzzer stage in thorough",
    "Generated-input search; thorough adds a coverage-guided libFuzzer campaign over the same pipeline.",
    "Overflow observable through overflow-checks in the harness profile.", "DESIGN.md §4 C13"),
  "C14": ("exploration", "property-based testing (proptest) with byte-equality oracle across repeated writes, 8 threads, 8 separately started processes, 8 buffer alignments, after failed writes on the same thread, and through section() in both orders; length law from the layout model",
